@@ -156,7 +156,7 @@ func cmdChild(props map[string]Property, args []string) int {
 		}
 		col.markFile = f
 	}
-	col.markTime = time.Now()
+	col.Touch()
 	if *out != "" {
 		col.violFile, _ = os.Create(*out + ".viol")
 		col.doneFile, _ = os.Create(*out + ".done")
@@ -173,13 +173,14 @@ func cmdChild(props map[string]Property, args []string) int {
 			if d {
 				return
 			}
-			if time.Since(col.markTime) > time.Duration(*stall)*time.Second {
-				fmt.Fprintf(os.Stderr, "WATCHDOG: no progress for %ds in unit %d; last case: %s\n", *stall, col.Unit, strings.TrimSpace(string(col.lastMark)))
+			since, wu, wm := col.watchdogView()
+			if since > time.Duration(*stall)*time.Second {
+				fmt.Fprintf(os.Stderr, "WATCHDOG: no progress for %ds in unit %d; last case: %s\n", *stall, wu, wm)
 				os.Exit(3)
 			}
 			runtime.ReadMemStats(&ms)
 			if ms.HeapAlloc > uint64(*memMB)<<20 {
-				fmt.Fprintf(os.Stderr, "WATCHDOG: heap %d MB in unit %d; last case: %s\n", ms.HeapAlloc>>20, col.Unit, strings.TrimSpace(string(col.lastMark)))
+				fmt.Fprintf(os.Stderr, "WATCHDOG: heap %d MB in unit %d; last case: %s\n", ms.HeapAlloc>>20, wu, wm)
 				os.Exit(3)
 			}
 		}
@@ -197,7 +198,7 @@ func cmdChild(props map[string]Property, args []string) int {
 			continue
 		}
 		col.Unit = u
-		col.markTime = time.Now()
+		col.Touch()
 		func() {
 			defer func() {
 				if r := recover(); r != nil {
@@ -567,6 +568,30 @@ func cmdRun(props map[string]Property, args []string) int {
 		if perClass[v.Class] >= 3 {
 			unknown++
 			continue
+		}
+		// confirm from the Case alone, in a fresh execution: a violation that does not
+		// reproduce is trouble with the harness (or flaky code), never reported as VIOLATION
+		if v.Class != "harness-panic" {
+			var w *Violation
+			inChild := strings.HasPrefix(v.Class, "fatal") || strings.HasPrefix(v.Class, "race")
+			for try := 0; try < 3 && (w == nil || w.Class != v.Class); try++ {
+				if inChild {
+					w = execInChild(p, v.Case, *vdir)
+				} else {
+					w = SafeExec(p, v.Case)
+				}
+				if !inChild {
+					break
+				}
+			}
+			if w == nil || w.Class != v.Class {
+				got := "held"
+				if w != nil {
+					got = w.Class
+				}
+				infra = append(infra, fmt.Sprintf("a %q violation did not reproduce from its Case (re-execution: %s); case: %s\n%s", v.Class, got, Short2(string(v.Case.Data), 1500), Short2(v.Detail, 1500)))
+				continue
+			}
 		}
 		m := v
 		if !strings.HasPrefix(v.Class, "fatal") && !strings.HasPrefix(v.Class, "race") && v.Class != "harness-panic" {
